@@ -1,5 +1,6 @@
 import LcmModel.FuncRep
 import LcmProofs.InterpT
+import LcmProofs.InterpBounds
 namespace Lcm
 
 /-! # C14 — pre-computed values on a grid are represented as a faithful function
@@ -73,6 +74,22 @@ theorem C14_extrapolation (a b : Rat) (n : Nat) (hab : a < b) (hn : 2 ≤ n) (v 
       rw [h0] at this; exact this
     have : max 0 (min (coordOf (.lin a b n) v).floor ((n : Int) - 2)) = 0 := by omega
     rw [this]; rfl
+
+/-- no overshoot inside the grid: when every continuous variable lies between the first and the last node of its axis
+(coordinate in `[0, size - 1]`) and the stored values lie in `[L, U]`, so does the value of the represented function - for
+any number of continuous axes. (Outside the grid the outermost segment is continued, `C14_extrapolation`, and the bound
+does not hold.) -/
+theorem C14_no_overshoot_inside_grid (t : Tensor Rat) (cs : List Rat) (L U : Rat)
+    (hlen : cs.length = t.shape.length) (h2 : ∀ n ∈ t.shape, 2 ≤ n)
+    (hin : ∀ p ∈ cs.zip t.shape, 0 ≤ p.1 ∧ p.1 ≤ (p.2 : Rat) - 1)
+    (hb : ∀ idx, InBounds t.shape idx → L ≤ t.get idx ∧ t.get idx ≤ U) :
+    L ≤ interp t cs ∧ interp t cs ≤ U :=
+  interp_bounds t cs L U hlen h2 hin hb
+
+/-- the premises are satisfiable (a 2 x 2 array with entries in [1, 4], evaluated inside), and the bound fails outside the grid -/
+example : let t : Tensor Rat := { shape := [2, 2], get := fun idx => 1 + 2 * (idx.headD 0 : Nat) + ((idx.tail.headD 0 : Nat) : Rat) }
+    (1 ≤ interp t [1/2, 1/3] ∧ interp t [1/2, 1/3] ≤ 4) ∧ ¬ (interp t [2, 0] ≤ 4) := by
+  decide +kernel
 
 /-- the restricted states enter only through the indexer: the position on the leading axis is the entry of
 the indexer array at the labels (a negative entry = infeasible combination is outside the model) -/
